@@ -279,7 +279,10 @@ pub fn evaluate_expression_value<S: GraphSnapshot>(
             crate::ast::ExistsExpression::Subquery(query) => {
                 match crate::query_api::exists_subquery_has_rows(query, row, snapshot, params) {
                     Ok(has_rows) => Value::Bool(has_rows),
-                    Err(_) => Value::Null,
+                    Err(err) => {
+                        params.defer_error(err);
+                        Value::Null
+                    }
                 }
             }
         },
